@@ -5,12 +5,17 @@ package main
 import (
 	"fmt"
 	"math"
+	"math/rand"
+	"os"
+	"sync/atomic"
 
 	sentinel "github.com/alibaba/sentinel-golang/api"
 	"github.com/alibaba/sentinel-golang/core/flow"
 	"github.com/alibaba/sentinel-golang/core/system_metric"
 
+	"verif/coop"
 	"verif/sx"
+	"verif/vatomic"
 	"verif/vclock"
 	"verif/vk"
 )
@@ -282,8 +287,135 @@ func runMem(idx int, c *memCase) {
 	run.Distinct(vk.Hash(c.LowThr, c.HighThr, c.LowMark, c.HighMark))
 }
 
+// ---- cooperative engine: tc_warm_up.go compiled against the shimmed atomics. After a warm phase and an idle period
+// (or on the very first use of the rule) 2-3 callers issue their requests at the same instant, interleaved at every
+// atomic access of the calculator: however the token synchronisation of the new second is interleaved, the first
+// second after the idleness is a cold start (W2).
+type coopCase struct {
+	T       float64 `json:"threshold"`
+	Period  uint32  `json:"period_s"`
+	Warm    bool    `json:"warm_phase_before_idle"`
+	Workers []int   `json:"requests_per_caller"`
+	Strat   string  `json:"strategy"`
+	Choices []byte  `json:"choices,omitempty"`
+}
+
+func coopEngine() {
+	run = vk.Start("C11", "coop")
+	defer run.Finish()
+	run.Rule("schedule = (warm-up rule threshold 6-12, cold factor 3, period 1-2 s; optional warm phase of 3*period+4 s of saturating demand then 2*period+3 s of idleness; 2-3 callers x 1-3 single-token requests at the same instant; choice sequence at every atomic access of tc_warm_up.go) under random walk, PCT d<=3 and bounded DFS; admitted in that first second <= ceil(T/cold)+1, every caller terminates; distinct = distinct (case, interleaving).")
+	run.Assume("Go atomics sequentially consistent; the statistic read (previous-second QPS) is atomic w.r.t. the callers")
+	clk = vclock.New(1900000000000)
+	{
+		c0 := atomic.LoadUint64(&vatomic.Count)
+		flow.LoadRulesOfResource("c11-calib", []*flow.Rule{{ID: "c", Resource: "c11-calib", TokenCalculateStrategy: flow.WarmUp, ControlBehavior: flow.Reject, Threshold: 10, WarmUpPeriodSec: 1, WarmUpColdFactor: 3}})
+		try("c11-calib")
+		flow.ClearRulesOfResource("c11-calib")
+		if atomic.LoadUint64(&vatomic.Count) == c0 {
+			run.Inconclusive("observability: a request through a warm-up rule executed no shimmed atomic access (was the calculator moved out of core/flow/tc_warm_up.go?) - no interleaving can be explored")
+			return
+		}
+	}
+	gen := func(rng *rand.Rand) *coopCase {
+		c := &coopCase{T: float64(vk.PickI(rng, 6, 9, 12)), Period: uint32(1 + rng.Intn(2)), Warm: rng.Intn(4) != 0}
+		for w, k := 0, 2+rng.Intn(2); w < k; w++ {
+			c.Workers = append(c.Workers, 1+rng.Intn(3))
+		}
+		return c
+	}
+	do := func(c *coopCase, ch coop.Chooser) {
+		caseNo++
+		res := fmt.Sprintf("c11co-%d", caseNo)
+		flow.LoadRulesOfResource(res, []*flow.Rule{{ID: res, Resource: res, TokenCalculateStrategy: flow.WarmUp, ControlBehavior: flow.Reject, Threshold: c.T, WarmUpPeriodSec: c.Period, WarmUpColdFactor: 3}})
+		defer flow.ClearRulesOfResource(res)
+		clk.AddMs(100000)
+		clk.SetMs(clk.Ms() - clk.Ms()%1000)
+		if c.Warm {
+			for end := clk.Ms() + uint64(3*c.Period+4)*1000; clk.Ms() < end; clk.AddMs(50) {
+				for k := 0; k < int(c.T)+3; k++ {
+					try(res)
+				}
+			}
+			clk.AddMs(uint64(2*c.Period+3) * 1000)
+			clk.SetMs(clk.Ms() - clk.Ms()%1000 + 1)
+		}
+		admitted := 0
+		fns := make([]func(), len(c.Workers))
+		for w := range c.Workers {
+			w := w
+			fns[w] = func() {
+				for k := 0; k < c.Workers[w]; k++ {
+					if try(res) {
+						admitted++
+					}
+				}
+			}
+		}
+		r := coop.Run(ch, coop.Options{Adversarial: 1000, FairTail: 10000}, fns...)
+		if r.Stuck {
+			run.Abort("scheduler: a worker did not reach a yield point (wall-clock guard); the process is abandoned")
+		}
+		c.Choices = r.Choices
+		if len(r.NonTerminated) > 0 {
+			run.Violation("C11/coop:non-termination", fmt.Sprintf("callers %v did not return within 10000 fair steps", r.NonTerminated), c)
+			return
+		}
+		for w, p := range r.Panics {
+			run.Violation("C11/coop:panic", fmt.Sprintf("caller %d panicked: %s", w, p), c)
+			return
+		}
+		if lim := int(math.Ceil(c.T/3)) + 1; admitted > lim {
+			run.Violation("C11/coop:W2:cold-start-too-hot", fmt.Sprintf("[T=%v period=%ds cold=3 warm-phase=%v] the concurrent callers of the first second after the idleness were admitted %d tokens, expected at most ceil(T/cold)+1 = %d", c.T, c.Period, c.Warm, admitted, lim), c)
+			return
+		}
+		run.Distinct(vk.Hash(c.T, c.Period, c.Warm, c.Workers, string(r.Choices)))
+	}
+	n := run.N(1500, 100000)
+	for i := 0; i < n; i++ {
+		if run.Skip(i) {
+			continue
+		}
+		rng := run.Rand(i)
+		c := gen(rng)
+		var ch coop.Chooser
+		if i%4 == 0 {
+			c.Strat = "random"
+			ch = &coop.Random{R: rng}
+		} else {
+			d := 1 + rng.Intn(3)
+			c.Strat = fmt.Sprintf("pct-d%d", d)
+			ch = coop.NewPCT(rng, len(c.Workers), d, 30)
+		}
+		run.Eval(i)
+		if i < 2 {
+			run.Sample(c)
+		}
+		do(c, ch)
+	}
+	if !run.Replaying() {
+		for j, nd := 0, run.N(2, 30); j < nd; j++ {
+			c := gen(run.Rand(6_000_000 + j))
+			c.Workers = c.Workers[:2]
+			c.Strat = "dfs-2-preemptions"
+			d := &coop.DFS{MaxPreempt: 2}
+			cnt := 0
+			for d.Next() && cnt < 3000 {
+				cnt++
+				run.Eval(6_000_000 + j)
+				cc := *c
+				do(&cc, d)
+			}
+			run.Count("dfs_schedules", int64(cnt))
+		}
+	}
+}
+
 func main() {
 	sx.Quiet()
+	if os.Getenv("VERIF_MODE") == "coop" {
+		coopEngine()
+		return
+	}
 	run = vk.Start("C11", "seq")
 	defer run.Finish()
 	run.Rule("case = warm-up rule (threshold 0.5-1000, period 1-30 s, cold factor default/2-10) x demand history (saturating, saturating-idle-saturating, one request per 10/20 ms tick, bursty, unlimited flood before the rule is loaded then idle then saturating) simulated at 10-20 ms resolution for 3*period+10 virtual seconds and more: W1 admitted tokens per aligned 1 s window <= threshold, W2 first second after a cold start <= ceil(T/cold)+1, W3 full rate (>= floor(T)-1 per second) after 3*period+10 s of saturating demand, W4 (T>=1) steady single-token demand admitted at least once per 3*period+10 s; or memory-adaptive rule x monotone sweep of injected memory readings: measured threshold (admissions in an empty frozen window) equals the low/high-memory threshold at/below/above the water marks, stays in the envelope and is non-increasing in usage. distinct = distinct configurations.")
